@@ -11,10 +11,13 @@ How the model uses the entries:
                                       `mealyTick` inside a tick (`tick_state_lifetime` = 'tick)
   Fold (arm Fold|FoldKeyed|Scan|…) -> `fold`/`fold_keyed`/`scan` with the same lifetime rule; `fold_no_replay` for a
                                       top-level bounded input (`Term.foldB`)
-  Reduce (arm Reduce|ReduceKeyed)  -> `reduce` / `reduce_keyed`, `reduce_no_replay` for a top-level bounded input
+  Reduce (arm Reduce|ReduceKeyed)  -> `reduce` / `reduce_keyed` (`Term.kreduce`, `Term.kreduceN`), `reduce_no_replay` for a
+                                      top-level bounded input
+  Scan + FlatMap                   -> `KeyedStream::generator` (`Term.kgen`: limit / enumerate / first) is built from these two
+                                      nodes by hydro_lang itself (keyed_stream/mod.rs), so it has no arm of its own
   CrossProduct (arm CrossProduct|Join) -> `join_multiset::<l,r>()`, followed by `-> multiset_delta()` iff both inputs are
                                       top level (`joinDeltaRun`)
-  Chain                            -> `chain()` ([0] first, then [1]) for `merge_unordered` and `Stream::chain`
+  Chain                            -> `chain()` ([0] first, then [1]) for `merge_unordered` (streams and keyed streams) and `Stream::chain`
   ChainFirst                       -> `chain_first_n(1)`
   CrossSingleton                   -> `cross_singleton::<'static>` iff the singleton is top level and bounded
   Difference (arm Difference|AntiJoin), JoinHalf -> pos/probe side 'tick, neg/build side by its location
